@@ -31,3 +31,11 @@ PLAIN = [
 # wide goto columns: more than 16 transitions on one symbol (binary search branch of gotoState)
 _ops = "fghijklmnopqrstuvw"
 PLAIN.append(G("p20", "a" + _ops, ["Sx"], [("Sx", "Ex")] + [("Ex", "%s Ex Ex" % o) for o in _ops] + [("Ex", "a")]))
+
+# final-state sharing: goto(entry, S) and goto(q, S) have the same LR(0) core, so the end-of-input shift that the
+# compiler attaches to the former is also taken in the latter context ("b a z" is accepted, KNOWN_FINDINGS.txt)
+PLAIN.append(G("p21", "abcz", ["Sx"], [("Sx", "Tx z"), ("Tx", "Sx"), ("Tx", "a"), ("Tx", "b Tx c")]) | {"known": "final-state-sharing"})
+# left/right recursion mixes, nullable prefixes and suffixes
+PLAIN.append(G("p22", "ab", ["Sx"], [("Sx", "Ax Sx b"), ("Sx", ""), ("Ax", "a")]))
+PLAIN.append(G("p23", "abc", ["Sx", "Lx"], [("Sx", "Lx c"), ("Lx", "Lx Ix"), ("Lx", "Ix"), ("Ix", "a"), ("Ix", "b")]))
+PLAIN.append(G("p24", "abc", ["Sx"], [("Sx", "Ox Px"), ("Ox", ""), ("Ox", "a"), ("Px", "Qx c"), ("Qx", ""), ("Qx", "Qx b")]))
